@@ -226,9 +226,36 @@ def check_fill_queue(ctx, rep, rules=('B-acc', 'X-opsites', 'W-iter')):
     if b is None:
         return
     calls = {}
+
+    def subst_params(v, actual):
+        if not isinstance(v, tuple) or not v:
+            return v
+        if v[0] == 'param' and isinstance(v[1], int) and 1 <= v[1] <= len(actual):
+            return actual[v[1] - 1]
+        return tuple(subst_params(x, actual) if isinstance(x, tuple) else x for x in v)
+
+    def pp_calls(p):
+        """process_polygon calls of a path, including those made by local helper functions it calls (one level)"""
+        for e in p.calls():
+            if e['callee'].endswith('process_polygon'):
+                yield e['line'], e['args']
+            elif e['callee'] in ctx.facts().bodies and not e.get('inlined'):
+                try:
+                    hb, hps = ctx.paths(e['callee'])
+                except sym.CannotAnalyse:
+                    continue
+                seen_h = set()
+                for hp in hps:
+                    for he in hp.calls('process_polygon'):
+                        if he['line'] in seen_h:
+                            continue
+                        seen_h.add(he['line'])
+                        rep.analysed.add(e['callee'])
+                        yield (e['line'], he['line']), tuple(subst_params(a, e['args']) for a in he['args'])
+
     for p in ps:
-        for e in p.calls('process_polygon'):
-            a = e['args']
+        for line_, a in pp_calls(p):
+            e = {'line': line_}
             ring = strip_upd(a[0])
             ring_kind = 'other'
             if ring[0] in ('pcall', 'call') and ring[1].endswith('::exterior'):
@@ -240,9 +267,11 @@ def check_fill_queue(ctx, rep, rules=('B-acc', 'X-opsites', 'W-iter')):
             ext = strip_upd(a[5])
             qa = strip_upd(a[3])
             queue_local = qa[0] == 'ref' and qa[1][0][0] == 'loc'
+            if qa[0] == 'param' and param_name(qa) == 'event_queue':
+                queue_local = True      # handed on by a helper
             calls.setdefault(e['line'], []).append((ring_kind, subj, box, ext, queue_local, a[2], p))
     n = 0
-    for line, lst in sorted(calls.items()):
+    for line, lst in sorted(calls.items(), key=lambda kv: str(kv[0])):
         ring_kind, subj, box, ext, queue_local, cid, p = lst[0]
         n += 1
         is_subj = subj[1] if sym.is_const(subj) else None
@@ -251,7 +280,8 @@ def check_fill_queue(ctx, rep, rules=('B-acc', 'X-opsites', 'W-iter')):
         rep.ob(R_ACC, 'operand-box:' + inst, is_subj is not None and box == exp_box and queue_local,
                'rings of the %s operand must be accumulated into %s with is_subject=%s and pushed to the local queue; found box=%s '
                'is_subject=%s' % ('subject' if is_subj else 'clipping', exp_box, is_subj, box, show(subj)),
-               loc=b.loc(line), reason='provenance')
+               loc=b.loc(line if isinstance(line, int) else line[0]), reason='provenance')
+        line = line if isinstance(line, int) else line[0]
         if ring_kind == 'interior':
             rep.ob(R_OPS, 'interior-flag:' + inst, is_const_bool(ext, False), 'interior rings must be flagged non-exterior; found %s' % show(ext),
                    loc=b.loc(line), reason='provenance')
@@ -297,7 +327,8 @@ def check_fill_queue(ctx, rep, rules=('B-acc', 'X-opsites', 'W-iter')):
             continue
         last = max(i for i, e in enumerate(p.events) if e['k'] == 'loophead' and e['bb'] == p.end_info)
         n_iter += 1
-        called = any(e['k'] == 'call' and e['depth'] == 0 and e['callee'].endswith('process_polygon') for e in p.events[last:])
+        called = any(e['k'] == 'call' and e['depth'] == 0 and (e['callee'].endswith('process_polygon') or
+                     (e['callee'] in ctx.facts().bodies and not e.get('inlined'))) for e in p.events[last:])
         rep.ob(R_OPS, 'every-ring-queued', called,
                'a path through a polygon/ring loop of fill_queue reaches the next iteration without calling process_polygon: some ring of '
                'an operand is not queued (conditions: %s)' % [show(noepoch(v))[:50] for v, _ in p.conds][-3:],
